@@ -11,6 +11,11 @@
     circuits feed the exit every payload class x destination kind x source address x socket state, outside hosts send
     every class back; every event with the observed socket state / queue / emissions / tunnel-bound packets is logged
     and the traces are validated by TLC (exact conformance + the property on the observations alone).
+    History: every packet is logged with the outside address it is for / from; scenario family "flows" and the random
+    traces send datagrams FROM addresses the socket emitted allowed packets to / was asked to send to / resolved /
+    accepted datagrams from (same IP other port, IPv4-mapped too) and tunnel data TO such addresses, in every socket
+    state; ExitPolicy.tla carries that history (asked, sentTo, heard) and gives it no influence on the verdict
+    (deviation FlowCache = an "established flow" exemption in either direction: negative controls).
 """
 from __future__ import annotations
 
@@ -274,6 +279,13 @@ class Outside:
         return [(h, f) for h, f in self.dns if not f.done()]
 
 
+def addr_rec(a):
+    """An outside address as the record Addr(ip, port) of ExitPolicy.tla."""
+    return {"ip": str(a[0]), "port": int(a[1])}
+
+
+NO_ADDR = {"ip": "", "port": 0}
+
 DESTS = {"v4": [("93.184.216.34", 80), ("10.1.2.3", 6881), ("1.2.3.4", 0), ("0.0.0.0", 53)],
          "v6": [("2001:db8::1", 443), ("::1", 7), ("::", 0)],
          "dom4": [("v4.test", 80), ("both.test", 0)],
@@ -406,6 +418,8 @@ class TraceRun:
         self.packets = []
         self.closed = False
         self.qcap = self.sock.queue.maxlen
+        # what this socket did with which outside address (chooses inputs, labels situations; the verdict is TLC's)
+        self.h_asked, self.h_sent, self.h_heard = [], [], []
 
     # -- projection of the real exit socket onto the specification's variables
     def state(self):
@@ -424,10 +438,14 @@ class TraceRun:
         from ipv8.messaging.interfaces.udp.endpoint import UDPv6Address
         out = self.net.outside
         ev["st"] = self.state()
-        ev["q"] = [{"p": view_of(d), "dk": dk_of_addr(a, "v6" if isinstance(a, UDPv6Address) else "v4")}
+        ev["q"] = [{"p": view_of(d), "dk": dk_of_addr(a, "v6" if isinstance(a, UDPv6Address) else "v4"),
+                    "a": addr_rec(a)}
                    for d, a in self.sock.queue] if ev["st"] != "closed" else []
         ev["np"] = len(out.pending_dns()) if ev["st"] != "closed" else 0
-        ev["emit"] = [{"p": view_of(d), "dk": dk_of_addr(a, fam)} for fam, d, a, _closed in out.sent[n_sent:]]
+        ev["emit"] = [{"p": view_of(d), "dk": dk_of_addr(a, fam), "a": addr_rec(a)}
+                      for fam, d, a, _closed in out.sent[n_sent:]]
+        for _fam, _d, a, _closed in out.sent[n_sent:]:
+            self.h_sent.append((str(a[0]), int(a[1])))
         ev["tun"] = []
         for _target, cid, dest, source, d in self.net.backlog[n_back:]:
             if cid != self.xcid:
@@ -435,8 +453,10 @@ class TraceRun:
             fam = "v6" if isinstance(source, UDPv6Address) else "v4"
             if source[0].startswith("::ffff:"):
                 fam = "v6mapped"
-            ev["tun"].append({"p": view_of(d), "fam": fam, "dest_null": tuple(dest) == NULL})
-        for k, dflt in (("src", "prev"), ("dk", "v4"), ("p", EMPTY_VIEW), ("i", 0), ("fam", "v4")):
+            ev["tun"].append({"p": view_of(d), "fam": fam, "dest_null": tuple(dest) == NULL, "a": addr_rec(source)})
+            self.h_heard.append((str(source[0]), int(source[1])))
+        for k, dflt in (("src", "prev"), ("dk", "v4"), ("p", EMPTY_VIEW), ("i", 0), ("fam", "v4"), ("a", NO_ADDR),
+                        ("rip", ""), ("sit", "")):
             ev.setdefault(k, dflt)
         self.events.append(ev)
         return ev
@@ -468,7 +488,25 @@ class TraceRun:
         net.do(net.a.overlay.send_data, c.hop.address, c.circuit_id, dest, NULL, pkt)
         net.rewrite = None
         self.packets.append(pkt)
-        return self.observe({"k": "data", "src": src, "dk": dk, "p": view_of(pkt), "dest": list(dest)}, n_sent, n_back)
+        sit = self.situation(dest)
+        if dk in ("v4", "v6"):
+            self.h_asked.append((str(dest[0]), int(dest[1])))
+        return self.observe({"k": "data", "src": src, "dk": dk, "p": view_of(pkt), "dest": list(dest),
+                             "a": addr_rec(dest), "sit": sit}, n_sent, n_back)
+
+    def situation(self, a):
+        """What the socket did with outside address a so far (label only)."""
+        a = (str(a[0]), int(a[1]))
+        plain = a[0][7:] if a[0].startswith("::ffff:") else None
+        for name, known in (("sent", self.h_sent), ("heard", self.h_heard), ("asked", self.h_asked)):
+            if a in known:
+                return name
+            if plain is not None and (plain, a[1]) in known:
+                return name + "-mapped"
+        for name, known in (("sent", self.h_sent), ("heard", self.h_heard), ("asked", self.h_asked)):
+            if any(a[0] == b[0] for b in known):
+                return name + "-ip"
+        return "fresh"
 
     def transport_ready(self):
         out = self.net.outside
@@ -481,20 +519,41 @@ class TraceRun:
         out = self.net.outside
         n_sent, n_back = len(out.sent), len(self.net.backlog)
         host, fut = out.pending_dns()[i - 1]
+        rip = ""
         if host in out.DNS:
-            self.net.do(fut.set_result, list(out.DNS[host]))
+            answer = list(out.DNS[host])
+            rip = sorted(answer, key=lambda x: x[0])[0][-1][0]      # the resolver's answer, IPv4 preferred (documented)
+            self.net.do(fut.set_result, answer)
         else:
             self.net.do(fut.set_exception, socket.gaierror(-2, "Name or service not known"))
-        return self.observe({"k": "res", "i": i, "host": host}, n_sent, n_back)
+        return self.observe({"k": "res", "i": i, "host": host, "rip": rip}, n_sent, n_back)
 
-    def outside_datagram(self, fam, pkt):
+    def outside_datagram(self, fam, pkt, source=None):
+        """A datagram from outside address `source` ((ip, port); default: an address never dealt with) arrives on the
+        IPv4 (fam v4) or IPv6 (v6, v6mapped) socket."""
         out = self.net.outside
         n_sent, n_back = len(out.sent), len(self.net.backlog)
         proto, tr = out.protos["v4" if fam == "v4" else "v6"]
         if tr.closed:
             raise MachineryError("driver delivers a datagram on a closed transport")
-        self.net.do(proto.datagram_received, pkt, OUT_SRC[fam])
-        return self.observe({"k": "out", "fam": fam, "p": view_of(pkt)}, n_sent, n_back)
+        if source is None:
+            source = OUT_SRC[fam][:2]
+        source = (str(source[0]), int(source[1]))
+        if (fam == "v4") != (":" not in source[0]) or (fam == "v6mapped") != source[0].startswith("::ffff:"):
+            raise MachineryError("driver delivers a datagram from %r on the %s socket" % (source, fam))
+        sit = self.situation(source)
+        self.net.do(proto.datagram_received, pkt, source if fam == "v4" else source + (0, 0))
+        return self.observe({"k": "out", "fam": fam, "p": view_of(pkt), "a": addr_rec(source), "from": list(source),
+                             "sit": sit}, n_sent, n_back)
+
+    def known_hosts(self, fam):
+        """Outside addresses of one family this socket had to do with, most significant history first."""
+        seen, res = set(), []
+        for a in self.h_sent + self.h_heard + self.h_asked:
+            if ((":" in a[0]) == (fam != "v4")) and not a[0].startswith("::ffff:") and a not in seen and a != NULL:
+                seen.add(a)
+                res.append(a)
+        return res
 
     def close(self):
         out = self.net.outside
@@ -631,6 +690,73 @@ def scripted_trace(net, gen, hops, variant):
     return t.finish(), marks
 
 
+FLOW_CLASSES = ["junk", "utp", "ipv8", "dht", "near", "own"]
+
+
+def flows_trace(net, gen, hops, burst=0):
+    """History, then input from / towards an address with that history.  The socket emits allowed packets to some
+    outside addresses, is asked to send forbidden ones to others, resolves names, accepts datagrams; every such address
+    then sends (and is sent) packets of every class, in the socket states in which that is possible."""
+    t = TraceRun(net, hops)
+    own, junk = (lambda: gen.make("own")), (lambda: gen.make("junk"))
+    x4, q4, y4, z4, x6 = ("93.184.216.34", 80), ("1.2.3.4", 0), ("10.1.2.3", 6881), ("8.8.4.4", 53), ("2001:db8::1", 443)
+    marks = {}
+    t.data("prev", "v4", x4, own())                        # opens the socket; waits in the queue
+    t.transport_ready()                                    # IPv4 transport: datagrams can arrive, queue not yet flushed
+    t.outside_datagram("v4", junk(), x4)                   # from an address a packet is waiting for
+    t.data("prev", "v4", q4, own())                        # leaves at once
+    t.outside_datagram("v4", junk(), q4)                   # contacted, socket still enabling
+    t.outside_datagram("v4", gen.make("utp"), q4)
+    t.transport_ready()                                    # ready: the queue is flushed, x4 contacted
+    if x4 not in t.h_sent or q4 not in t.h_sent:
+        raise MachineryError("flows scenario: the allowed packets did not leave (vacuous history)")
+    t.outside_datagram("v4", junk(), x4)
+    marks["forbidden_from_contacted"] = len(t.events)
+    for cls in FLOW_CLASSES:
+        t.outside_datagram("v4", gen.make(cls), x4)        # every class from a contacted address
+    t.outside_datagram("v4", junk(), (x4[0], x4[1] + 1))   # its IP, another port
+    t.outside_datagram("v4", gen.make("utp"), (x4[0], 6881))
+    t.outside_datagram("v6mapped", junk(), ("::ffff:" + x4[0], x4[1]))
+    t.data("prev", "v4", y4, junk())                       # refused
+    for cls in ("junk", "utp", "ipv8"):
+        t.outside_datagram("v4", gen.make(cls), y4)        # from an address only forbidden data was meant for
+    t.data("prev", "dom4", ("v4.test", 8080), own())
+    t.data("prev", "dom4", ("both.test", 80), own())
+    t.resolve(1)
+    t.resolve(1)
+    for a in (("93.184.216.34", 8080), ("93.184.216.35", 80)):
+        for cls in ("junk", "utp", "ipv8"):
+            t.outside_datagram("v4", gen.make(cls), a)     # from a resolved, contacted address
+    t.data("prev", "v6", x6, own())
+    t.data("prev", "dom6", ("v6.test", 8080), own())
+    t.resolve(1)
+    for a in (x6, ("2001:db8::34", 8080), (x6[0], 444)):
+        for cls in ("junk", "utp", "ipv8", "own"):
+            t.outside_datagram("v6", gen.make(cls), a)
+    t.outside_datagram("v4", own(), z4)                    # accepted from outside first ...
+    marks["accepted_from_outside"] = len(t.events)
+    for cls in FLOW_CLASSES:
+        t.outside_datagram("v4", gen.make(cls), z4)        # ... then every class from there
+    for cls in FLOW_CLASSES:
+        t.data("prev", "v4", z4, gen.make(cls))            # ... and every class towards it
+    marks["forbidden_to_heard"] = len(t.events) - len(FLOW_CLASSES) + 1     # junk
+    for cls in FLOW_CLASSES:
+        t.data("prev", "v4", x4, gen.make(cls))            # every class towards a contacted address
+    t.data("port", "v4", x4, junk())
+    t.data("other", "v4", x4, junk())
+    t.outside_datagram("v4", junk(), x4)
+    if burst:
+        # a long well-behaved exchange with one address, then forbidden packets in both directions
+        for _ in range(burst):
+            t.data("prev", "v4", x4, own())
+            t.outside_datagram("v4", own(), x4)
+        t.outside_datagram("v4", junk(), x4)
+        t.data("prev", "v4", x4, junk())
+        t.outside_datagram("v4", gen.make("near"), ("8.8.8.8", 53))
+    t.close()
+    return t.finish(), marks
+
+
 def random_trace(net, gen, rng, hops, length):
     t = TraceRun(net, hops)
     burst = rng.random() < 0.2
@@ -642,14 +768,26 @@ def random_trace(net, gen, rng, hops, length):
             dk = rng.choices(["v4", "v6", "dom4", "dom6", "domfail", "null"], [6, 4, 2, 2, 1, 2])[0]
             src = rng.choices(["prev", "port", "other"], [6, 1, 3])[0]
             cls = rng.choice(gen.classes + ["own", "own", "utp", "ipv8"])
-            t.data(src, dk, rng.choice(DESTS[dk]), gen.make(cls))
+            dest = rng.choice(DESTS[dk])
+            if dk in ("v4", "v6") and rng.random() < 0.3 and t.known_hosts(dk):
+                dest = rng.choice(t.known_hosts(dk))        # an address the socket already had to do with
+            t.data(src, dk, dest, gen.make(cls))
         elif k == "tr":
             t.transport_ready()
         elif k == "res":
             t.resolve(rng.randrange(1, len(t.net.outside.pending_dns()) + 1))
         elif k == "out":
             fam = rng.choice([f for f in ("v4", "v6", "v6mapped") if t.can_out(f)])
-            t.outside_datagram(fam, gen.any())
+            known = t.known_hosts("v4" if fam != "v6" else "v6")
+            source, how = None, rng.random()
+            if known and how < 0.6:
+                source = rng.choice(known[:4])              # an address with a history (sent to / heard / asked)
+            elif known and how < 0.75:
+                a = rng.choice(known[:4])
+                source = (a[0], a[1] % 65535 + 1)           # its IP, another port
+            if source is not None and fam == "v6mapped":
+                source = ("::ffff:" + source[0], source[1])
+            t.outside_datagram(fam, gen.any() if rng.random() < 0.6 else gen.make(rng.choice(FLOW_CLASSES)), source)
         else:
             t.close()
     return t.finish()
@@ -668,7 +806,8 @@ def write_cfg(tmp, name, spec, invariants, qcap):
     path = os.path.join(tmp, name)
     with open(path, "w", encoding="utf-8") as f:
         f.write("SPECIFICATION %s\nCONSTANTS QCap = %d MaxPend = 100000 MaxOps = 1000000\n"
-                "          NoInboundFilter = FALSE NoNullCheck = FALSE AnyoneOpens = FALSE RepIds = {}\n" % (spec, qcap))
+                "          NoInboundFilter = FALSE NoNullCheck = FALSE AnyoneOpens = FALSE RepIds = {}\n"
+                "          TrackHistory = TRUE FlowCache = \"none\" HostIps = {} HostPorts = {} SrcSet = {} DkSet = {}\n" % (spec, qcap))
         for inv in invariants:
             f.write("INVARIANT %s\n" % inv)
     return path
@@ -730,7 +869,53 @@ def describe_event(tr, l):
     return json.dumps({k: e[k] for k in ("k", "src", "dk", "fam", "st", "emit", "tun") if k in e})[:700]
 
 
-def trace_part(ctx, tier, rng):
+def corrupted(traces, marks):
+    """Negative controls on the recorded material: [(name, corrupted trace)] - every one must be rejected by both
+    validators."""
+    (tour_idx, m), (flow_idx, fm) = marks["tour"], marks["flows"]
+
+    def corrupt(idx, fn):
+        t = json.loads(json.dumps(traces[idx]))
+        fn(t["events"])
+        return t
+
+    def c_inbound(ev):
+        e = ev[m["forbidden_from_outside"] - 1]
+        e["tun"] = [{"p": e["p"], "fam": "v4", "dest_null": True, "a": e["a"]}]
+
+    def c_null(ev):
+        e = ev[m["null_destination_when_ready"] - 1]
+        e["emit"] = [{"p": e["p"], "dk": "null", "a": e["a"]}]
+
+    def c_open(ev):
+        ev[m["other_while_disabled"] - 1]["st"] = "enabling0"
+
+    def c_policy(ev):
+        # a forbidden packet reported as emitted
+        e = ev[m["junk_when_ready"] - 1]
+        e["emit"] = [{"p": e["p"], "dk": "v4", "a": e["a"]}]
+
+    def c_flow_in(ev):
+        # the "established flow" exemption: a forbidden datagram from an address the socket sent allowed packets to
+        e = ev[fm["forbidden_from_contacted"] - 1]
+        e["tun"] = [{"p": e["p"], "fam": "v4", "dest_null": True, "a": e["a"]}]
+
+    def c_flow_out(ev):
+        # ... and the other way round: a forbidden packet towards an address accepted datagrams came from
+        e = ev[fm["forbidden_to_heard"] - 1]
+        e["emit"] = [{"p": e["p"], "dk": "v4", "a": e["a"]}]
+    return [("trace reporting a forbidden outside datagram as tunnelled is rejected", corrupt(tour_idx, c_inbound)),
+            ("trace reporting an emission towards 0.0.0.0:0 is rejected", corrupt(tour_idx, c_null)),
+            ("trace in which a foreign source opens the socket is rejected", corrupt(tour_idx, c_open)),
+            ("trace reporting a forbidden packet as emitted is rejected", corrupt(tour_idx, c_policy)),
+            ("trace reporting a forbidden datagram from an address the socket sent allowed packets to as tunnelled "
+             "is rejected", corrupt(flow_idx, c_flow_in)),
+            ("trace reporting a forbidden packet towards an address datagrams were accepted from as emitted is "
+             "rejected", corrupt(flow_idx, c_flow_out))]
+
+
+def trace_record(tier, rng):
+    """Drive the real exit node through the scenario families; returns the recorded material."""
     import warnings
 
     from ..vloop import VLoop, install, uninstall
@@ -738,22 +923,26 @@ def trace_part(ctx, tier, rng):
     loop = install(VLoop())
     outside = Outside(loop)
     traces = []
-    marks = None
+    marks = {}
     n_random = 6 if tier == "quick" else 60
     variants = [(TUNNEL_CID, b"\x02")] if tier == "quick" else [(TUNNEL_CID, b"\x02"), (ODD_CID, b"\x01")]
     received = 0
+    burst_k = rng.randrange(len(FLAGSETS))
     try:
         for cid, version in variants:
-            for fs in FLAGSETS:
+            for k, fs in enumerate(FLAGSETS):
                 net = Net(loop, outside, fs, cid, version)
                 gen = PacketGen(rng, net.prefix)
                 try:
                     tr, m = scripted_trace(net, gen, 1, "tour")
-                    if marks is None:
-                        marks = (len(traces), m)
+                    marks.setdefault("tour", (len(traces), m))
                     traces.append(tr)
                     traces.append(scripted_trace(net, gen, 2, "tour")[0])
                     traces.append(scripted_trace(net, gen, 2, "overflow")[0])
+                    for hops in ((1, 2) if tier != "quick" else (1 + k % 2,)):
+                        tr, m = flows_trace(net, gen, hops, burst=24 if (tier != "quick" or k == burst_k) else 0)
+                        marks.setdefault("flows", (len(traces), m))
+                        traces.append(tr)
                     for i in range(n_random):
                         traces.append(random_trace(net, gen, rng, 1 + i % 2, rng.randrange(12, 45)))
                     received += net.received_by_origin
@@ -762,10 +951,25 @@ def trace_part(ctx, tier, rng):
     finally:
         uninstall()
         loop.close()
+        import asyncio
+        asyncio.set_event_loop(asyncio.new_event_loop())     # the enumeration builds TaskManagers (never run)
     qcaps = {t["qcap"] for t in traces}
     if len(qcaps) != 1:
         raise MachineryError("exit sockets with different queue capacities")
-    qcap = qcaps.pop()
+    return {"traces": traces, "marks": marks, "received": received, "qcap": qcaps.pop()}
+
+
+def trace_submit(ex, rec):
+    """Start the TLC runs on the recorded material (they run beside the enumeration)."""
+    traces, qcap = rec["traces"], rec["qcap"]
+    rec["controls"] = corrupted(traces, rec["marks"])
+    bad = [t for _, t in rec["controls"]]
+    rec["futures"] = (ex.submit(validate, traces, qcap, "obs"), ex.submit(validate, traces, qcap, "exact"),
+                      ex.submit(rejected_traces, bad, qcap, "obs"), ex.submit(rejected_traces, bad, qcap, "exact"))
+
+
+def trace_judge(ctx, rec):
+    traces, qcap, received = rec["traces"], rec["qcap"], rec["received"]
     n_events = sum(len(t["events"]) for t in traces)
     n_emit = sum(len(e["emit"]) for t in traces for e in t["events"])
     n_tun = sum(len(e["tun"]) for t in traces for e in t["events"])
@@ -773,19 +977,24 @@ def trace_part(ctx, tier, rng):
     if not n_emit or not n_tun or not n_opened:
         ctx.note("trace_vacuity", {"emissions": n_emit, "tunnelled_back": n_tun, "sockets_opened": n_opened})
     kinds = {}
+    history = {}
     for t in traces:
         for e in t["events"]:
             key = (e["k"], e["src"] if e["k"] == "data" else "", e["dk"] if e["k"] == "data" else e["fam"], e["st"],
                    bool(e["emit"]), bool(e["tun"]))
             kinds[key] = kinds.get(key, 0) + 1
             ctx.nontrivial(("ev", tuple(t["flags"]), key, tuple(e["p"]["h"][:2]), e["p"]["n"]))
+            if e["sit"] and e["sit"] != "fresh" and e["k"] in ("out", "data"):
+                hk = "%s %s %s: %s" % ("datagram from" if e["k"] == "out" else "data towards", e["sit"], e["st"],
+                                       ("passed" if (e["tun"] or e["emit"]) else "nothing passed"))
+                history[hk] = history.get(hk, 0) + 1
+                ctx.nontrivial(("hist", tuple(t["flags"]), e["k"], e["sit"], e["st"], tuple(e["p"]["h"][:2]),
+                                e["p"]["n"]))
 
     # the property on the observations (verdict) and exact conformance to ExitPolicy.tla
-    with ThreadPoolExecutor(max_workers=2) as ex:
-        fo = ex.submit(validate, traces, qcap, "obs")
-        fe = ex.submit(validate, traces, qcap, "exact")
-        ok_o, inv_o, tid_o, l_o, r_o = fo.result()
-        ok_e, inv_e, tid_e, l_e, r_e = fe.result()
+    fo, fe, fco, fce = rec["futures"]
+    ok_o, inv_o, tid_o, l_o, r_o = fo.result()
+    ok_e, inv_e, tid_e, l_e, r_e = fe.result()
     ctx.add_tlc("trace_obs", r_o)
     ctx.add_tlc("trace_exact", r_e)
     divergence = None
@@ -796,6 +1005,8 @@ def trace_part(ctx, tier, rng):
         if e:
             if e.get("tun"):
                 what = "inbound"
+                if e.get("sit", "fresh") not in ("", "fresh"):
+                    what = "inbound-from-known-address"
             if e.get("emit"):
                 what = "null-destination" if any(x["dk"] == "null" for x in e["emit"]) else "outbound"
             if e["k"] == "data" and e["src"] == "other" and e["st"] != "disabled" and (
@@ -803,7 +1014,9 @@ def trace_part(ctx, tier, rng):
                 what = "opened-by-foreign-source"
         ctx.violation("trace:%s" % what,
                       "the exit node's observed behaviour violates the exit policy property (%s): flags %s, event %s: %s"
-                      % (what, tr and tr["flags"], l_o, tr and describe_event(tr, l_o)),
+                      "%s" % (what, tr and tr["flags"], l_o, tr and describe_event(tr, l_o),
+                              "; what the socket did with that outside address before: %s" % e["sit"]
+                              if e and e.get("sit") else ""),
                       {"trace": tr, "event_index": l_o, "invariant": inv_o})
     elif not ok_e:
         tr = traces[tid_e - 1] if isinstance(tid_e, int) else None
@@ -827,45 +1040,24 @@ def trace_part(ctx, tier, rng):
                         "sent_back_into_tunnel": n_tun, "received_by_originator": received,
                         "sockets_opened": n_opened, "queue_capacity": qcap,
                         "distinct_event_situations": len(kinds), "exact_conformance": ok_e,
-                        "model_divergence": divergence})
+                        "model_divergence": divergence,
+                        "input_from_or_towards_addresses_with_a_history": dict(sorted(history.items()))})
     if traces:
         ctx.sample({"recorded_events": traces[0]["events"][2:5], "flags": traces[0]["flags"]})
 
-    # negative controls on the recorded material: corrupted traces must be rejected by both validators
-    if not ctx.violations and marks is not None:
-        base_idx, m = marks
-        base = traces[base_idx]
-
-        def corrupt(fn):
-            t = json.loads(json.dumps(base))
-            fn(t["events"])
-            return [t]
-
-        def c_inbound(ev):
-            e = ev[m["forbidden_from_outside"] - 1]
-            e["tun"] = [{"p": e["p"], "fam": "v4", "dest_null": True}]
-
-        def c_null(ev):
-            e = ev[m["null_destination_when_ready"] - 1]
-            e["emit"] = [{"p": e["p"], "dk": "null"}]
-
-        def c_open(ev):
-            ev[m["other_while_disabled"] - 1]["st"] = "enabling0"
-
-        def c_policy(ev):
-            # a forbidden packet reported as emitted
-            e = ev[m["junk_when_ready"] - 1]
-            e["emit"] = [{"p": e["p"], "dk": "v4"}]
-        controls = (("trace reporting a forbidden outside datagram as tunnelled is rejected", c_inbound),
-                    ("trace reporting an emission towards 0.0.0.0:0 is rejected", c_null),
-                    ("trace in which a foreign source opens the socket is rejected", c_open),
-                    ("trace reporting a forbidden packet as emitted is rejected", c_policy))
-        bad = [corrupt(fn)[0] for _, fn in controls]
-        with ThreadPoolExecutor(max_workers=2) as ex:
-            fo = ex.submit(rejected_traces, bad, qcap, "obs")
-            fe = ex.submit(rejected_traces, bad, qcap, "exact")
-            rej_o, rej_e = fo.result(), fe.result()
-        for i, (name, _) in enumerate(controls):
+    rej_o, rej_e = fco.result(), fce.result()
+    if not ctx.violations:
+        # vacuity of the history part (only meaningful when the code conforms): forbidden input from / towards
+        # addresses of every kind of history was really tried and really refused
+        need = [k for k in ("datagram from sent ready: nothing passed", "datagram from sent enabling4: nothing passed",
+                            "datagram from asked enabling4: nothing passed", "datagram from asked ready: nothing passed",
+                            "datagram from heard ready: nothing passed", "datagram from sent-ip ready: nothing passed",
+                            "data towards sent ready: nothing passed", "data towards heard ready: nothing passed",
+                            "datagram from sent ready: passed", "data towards heard ready: passed")
+                if not history.get(k)]
+        if need:
+            raise MachineryError("trace binding is vacuous for the history part: never observed %s" % need)
+        for i, (name, _) in enumerate(rec["controls"]):
             ctx.control(name, (i + 1) in rej_o and (i + 1) in rej_e)
     return n_emit, n_tun, n_opened
 
@@ -913,7 +1105,7 @@ def replay_file(ctx, path):
             elif e["k"] == "res":
                 t.resolve(e["i"])
             elif e["k"] == "out":
-                t.outside_datagram(e["fam"], build(e["p"]))
+                t.outside_datagram(e["fam"], build(e["p"]), tuple(e["from"]) if e.get("from") else None)
             else:
                 t.close()
         new = t.finish()
@@ -950,10 +1142,12 @@ def run(tier, seed, replay=None):
                         "safety reading: dropping allowed traffic is never a violation"]
     rng = random.Random(seed)
     random.seed(seed)
-    with ThreadPoolExecutor(max_workers=1) as ex:
+    with ThreadPoolExecutor(max_workers=5) as ex:
         fm = ex.submit(model_part_safe, tier)
+        rec = trace_record(tier, random.Random(seed + 7919))
+        trace_submit(ex, rec)           # TLC validates the recorded traces while the enumeration runs
         enum_part(ctx, tier, rng)
-        n_emit, n_tun, n_opened = trace_part(ctx, tier, rng)
+        n_emit, n_tun, n_opened = trace_judge(ctx, rec)
         res = fm.result()
     if isinstance(res, Exception):
         raise res
@@ -970,24 +1164,32 @@ def run(tier, seed, replay=None):
 
 
 def model_part_safe(tier):
-    """Model checking runs beside the enumeration (own TLC process); results are merged by run()."""
+    """Model checking runs beside the enumeration (own TLC processes); results are merged by run()."""
     try:
-        controls = []
-        for cfg, inv in (("ExitPolicy_ctl_inbound.cfg", "EmitOnlyAllowed"), ("ExitPolicy_ctl_null.cfg", "NeverToNull"),
-                         ("ExitPolicy_ctl_opener.cfg", "OpenedOnlyByPrevHop")):
-            r = run_tlc("ExitPolicy.tla", cfg, coverage=False, workers=2)
-            controls.append(("spec with deviation %s violates %s" % (cfg[len("ExitPolicy_ctl_"):-4], inv),
-                             r.violated == inv))
-        models = []
-        for tag, cfg in ([("model", "ExitPolicy_quick.cfg")] if tier == "quick" else
-                         [("model_all_classes", "ExitPolicy_thorough.cfg"), ("model_deep", "ExitPolicy_deep.cfg")]):
-            r = run_tlc("ExitPolicy.tla", cfg, timeout=3000)
-            if not r.ok:
-                raise MachineryError("ExitPolicy %s: TLC reports %s on the specification itself" % (cfg, r.violated))
-            for act in ("DataFromTunnel", "TransportReady", "ResolveDone", "OutsideDatagram", "Close"):
-                if r.coverage.get(act, (0, 0))[1] == 0:
-                    raise MachineryError("ExitPolicy.tla: action %s is never taken (vacuous model)" % act)
-            models.append((tag, r))
+        quick = tier == "quick"
+        ctl = [("ExitPolicy_ctl_inbound.cfg", "EmitOnlyAllowed"), ("ExitPolicy_ctl_null.cfg", "NeverToNull"),
+               ("ExitPolicy_ctl_opener.cfg", "OpenedOnlyByPrevHop")]
+        # an "established flow" exemption from the filter, keyed on what the socket did with the address before
+        flows = ["in_after_out", "out_after_in"] if quick else ["in_after_out", "in_after_ask", "in_after_in",
+                                                                 "out_after_out", "out_after_in"]
+        ctl += [("ExitPolicy_ctl_flow_%s.cfg" % f, "EmitOnlyAllowed") for f in flows]
+        mods = ([("model", "ExitPolicy_quick.cfg"), ("model_history", "ExitPolicy_hist_quick.cfg")] if quick else
+                [("model_all_classes", "ExitPolicy_thorough.cfg"), ("model_deep", "ExitPolicy_deep.cfg"),
+                 ("model_history", "ExitPolicy_hist_thorough.cfg")])
+        with ThreadPoolExecutor(max_workers=3) as ex:
+            fmods = [(tag, cfg, ex.submit(run_tlc, "ExitPolicy.tla", cfg, timeout=3000)) for tag, cfg in mods]
+            fctl = [(cfg, inv, ex.submit(run_tlc, "ExitPolicy.tla", cfg, coverage=False, workers=2)) for cfg, inv in ctl]
+            controls = [("spec with deviation %s violates %s" % (cfg[len("ExitPolicy_ctl_"):-4], inv),
+                         f.result().violated == inv) for cfg, inv, f in fctl]
+            models = []
+            for tag, cfg, f in fmods:
+                r = f.result()
+                if not r.ok:
+                    raise MachineryError("ExitPolicy %s: TLC reports %s on the specification itself" % (cfg, r.violated))
+                for act in ("DataFromTunnel", "TransportReady", "ResolveDone", "OutsideDatagram", "Close"):
+                    if r.coverage.get(act, (0, 0))[1] == 0:
+                        raise MachineryError("ExitPolicy.tla: action %s is never taken (vacuous model)" % act)
+                models.append((tag, r))
         return controls, models
     except Exception as e:  # noqa: BLE001
         return e
